@@ -1029,6 +1029,20 @@ impl LoopScn {
 // Generation helpers shared by the per-property distributions
 // ---------------------------------------------------------------------------
 
+/// On a quantised clock that only advances when it is read, pairs of
+/// back-to-back reads stay phase-locked to the quantum when `step` is a
+/// multiple of `2 * read_cost`: every pair then reads the same value and
+/// `Timer::measure_precision` (whose delay loop spends no virtual time) would
+/// never see a non-zero sample. Real clocks advance during the delay loop, so
+/// such configurations are an artefact and are not generated.
+pub fn unaliased_read_cost(step: u64, mut read_cost: u64) -> u64 {
+    read_cost = read_cost.clamp(1, step.max(1));
+    while read_cost < step && step % (2 * read_cost) == 0 {
+        read_cost += 1;
+    }
+    read_cost
+}
+
 pub fn pick_clock(rng: &mut Rng, with_quantum: bool) -> ClockCfg {
     let frequency = *rng.pick(&[
         1_000_000u64,
@@ -1043,7 +1057,7 @@ pub fn pick_clock(rng: &mut Rng, with_quantum: bool) -> ClockCfg {
     ]);
     let step = if with_quantum { *rng.pick(&[1u64, 1, 1, 41, 100, 1000]) } else { 1 };
     let start = *rng.pick(&[0u64, 0, 1, 1 << 32, 1 << 63, 123_456_789_012]);
-    let read_cost = if step > 1 { rng.range((step / 4).max(1), step) } else { rng.range(1, 30) };
+    let read_cost = if step > 1 { unaliased_read_cost(step, rng.range((step / 4).max(1), step)) } else { rng.range(1, 30) };
     ClockCfg { frequency, step, start, read_cost, skew: Vec::new() }
 }
 
@@ -1057,7 +1071,12 @@ pub fn pick_cost(rng: &mut Rng, lo: u64, hi: u64) -> Cost {
 }
 
 pub fn pick_shapes(rng: &mut Rng, scn: &mut LoopScn) {
-    scn.entry = *rng.pick(&Entry::ALL);
+    // Two thirds of the runs use the entry points that can run in parallel.
+    scn.entry = if rng.chance(2, 3) {
+        *rng.pick(&[Entry::Bench, Entry::BenchValues, Entry::BenchRefs])
+    } else {
+        *rng.pick(&[Entry::BenchLocal, Entry::BenchLocalValues, Entry::BenchLocalRefs])
+    };
     scn.ishape = *rng.pick(&Shape::ALL);
     scn.oshape = *rng.pick(&Shape::ALL);
 }
